@@ -10,14 +10,32 @@
 //!              Lean model (Model/Algo/WindingCurves.lean over Model/Geom/Flatten.lean); oracle: hit
 //!              test vs the crossing number of an independent fine flattening away from the
 //!              outline; area sign = requested winding of the shape helpers.
+//! * `fillprog:32`  PROGRAMS of shape helpers and sub-paths issued to ONE builder object, (a) to
+//!              `Path::builder()` / `Path::builder_with_attributes(n)` → hit test / winding number at
+//!              ~40 query points (random, near the shapes' centres, between centres = overlaps,
+//!              level with control points) and (b) to the fill tessellator's OWN builder
+//!              (`FillTessellator::builder` with the inherent `NoAttributes` helpers,
+//!              `builder_with_attributes(n)`, and both through the `PathBuilder` trait) with its
+//!              overridden `add_circle`, x requested `Winding` x fill rule x sweep orientation x
+//!              tolerance.  Compared with the model: the COMPLETE emission sequence of the fill
+//!              (every vertex with its sibling edge records, interpolated attributes, triangles)
+//!              obtained from the model of the helpers' expansion (Model/Tess/FillBuilderShapes.lean,
+//!              `FillBuilder::add_circle` = 8 arcs + octagon) fed to the modelled sweep, and the
+//!              winding number / hit test on the `Path`.  Oracle: at every query point farther than
+//!              the tolerance from every outline, covered by a triangle <=> `hit_test_path` under the
+//!              same rule (both rules), the hit test = crossing number of an independent fine
+//!              flattening, and every helper delivers the requested direction to the fill (its
+//!              contribution cancels / adds up against an enclosing rectangle of known direction).
 
 use lyon_algorithms::area::approximate_signed_area;
 use lyon_algorithms::hit_test::{hit_test_path, path_winding_number_at_position};
 use lyon_algorithms::winding::compute_winding;
-use lyon_path::math::{point, vector, Angle, Box2D, Point};
-use lyon_path::builder::BorderRadii;
-use lyon_path::{FillRule, Path, PathEvent, Winding};
-use lyon_tessellation::FillTessellator;
+use lyon_path::builder::{BorderRadii, NoAttributes, PathBuilder};
+use lyon_path::math::{point, vector, Angle, Box2D, Point, Vector};
+use lyon_path::{FillRule, Path, PathEvent, Polygon, Winding};
+use lyon_tessellation::{
+    FillGeometryBuilder, FillOptions, FillTessellator, FillVertex, GeometryBuilder, GeometryBuilderError, Orientation, VerifEdgeRecord, VertexId,
+};
 use vh::fillgen::*;
 use vh::{CaseOut, Ctx, Oracle, Out, Rng};
 
@@ -438,6 +456,635 @@ fn curved_case(ctx: &mut Ctx) {
     });
 }
 
+// ---------------------------------------------------------------------------------------------
+// Family `fillprog:32`: programs of shape helpers + sub-paths on one builder object
+
+#[derive(Clone, Debug)]
+enum PSeg {
+    L(Point),
+    Q(Point, Point),
+    C(Point, Point, Point),
+}
+
+#[derive(Clone, Debug)]
+enum Item {
+    Circle { c: Point, r: f32, w: Winding },
+    Rect { b: Box2D, w: Winding },
+    Ellipse { c: Point, radii: Vector, rot: f32, w: Winding },
+    RRect { b: Box2D, radii: BorderRadii, w: Winding },
+    Polygon { pts: Vec<Point>, closed: bool },
+    Sub { start: Point, segs: Vec<PSeg>, close: bool },
+}
+
+/// an item with the attribute slices it is issued with (helpers: one slice; `Sub`: one per endpoint)
+#[derive(Clone, Debug)]
+struct ProgItem {
+    item: Item,
+    attrs: Vec<Vec<f32>>,
+}
+
+impl Item {
+    fn name(&self) -> &'static str {
+        match self {
+            Item::Circle { .. } => "circle",
+            Item::Rect { .. } => "rect",
+            Item::Ellipse { .. } => "ellipse",
+            Item::RRect { .. } => "rrect",
+            Item::Polygon { .. } => "polygon",
+            Item::Sub { .. } => "sub",
+        }
+    }
+    /// requested winding, a point well inside the shape (generic: not on a symmetry axis), and
+    /// whether the shape has a non-degenerate interior around that point
+    fn probe(&self) -> Option<(Winding, Point, f32)> {
+        match *self {
+            Item::Circle { c, r, w } if r.abs() > 0.2 => Some((w, point(c.x + 0.137 * r.abs(), c.y + 0.071 * r.abs()), r.abs())),
+            Item::Rect { b, w } if b.max.x - b.min.x > 0.2 && b.max.y - b.min.y > 0.2 => {
+                let (sx, sy) = (b.max.x - b.min.x, b.max.y - b.min.y);
+                Some((w, point(b.min.x + 0.537 * sx, b.min.y + 0.471 * sy), sx.min(sy)))
+            }
+            Item::Ellipse { c, radii, w, .. } if radii.x > 0.2 && radii.y > 0.2 => {
+                let m = radii.x.min(radii.y);
+                Some((w, point(c.x + 0.137 * m, c.y + 0.071 * m), m))
+            }
+            Item::RRect { b, w, .. } if b.max.x - b.min.x > 0.2 && b.max.y - b.min.y > 0.2 => {
+                let (sx, sy) = (b.max.x - b.min.x, b.max.y - b.min.y);
+                Some((w, point(b.min.x + 0.537 * sx, b.min.y + 0.471 * sy), sx.min(sy)))
+            }
+            _ => None,
+        }
+    }
+    fn centre(&self) -> Point {
+        match self {
+            Item::Circle { c, .. } | Item::Ellipse { c, .. } => *c,
+            Item::Rect { b, .. } | Item::RRect { b, .. } => point((b.min.x + b.max.x) * 0.5, (b.min.y + b.max.y) * 0.5),
+            Item::Polygon { pts, .. } => {
+                let n = pts.len().max(1) as f32;
+                point(pts.iter().map(|p| p.x).sum::<f32>() / n, pts.iter().map(|p| p.y).sum::<f32>() / n)
+            }
+            Item::Sub { start, segs, .. } => {
+                let mut v = vec![*start];
+                for g in segs {
+                    v.push(match g {
+                        PSeg::L(p) | PSeg::Q(_, p) | PSeg::C(_, _, p) => *p,
+                    });
+                }
+                let n = v.len() as f32;
+                point(v.iter().map(|p| p.x).sum::<f32>() / n, v.iter().map(|p| p.y).sum::<f32>() / n)
+            }
+        }
+    }
+}
+
+/// the program through the `PathBuilder` TRAIT (generic code): `FillBuilder` → its overriding
+/// `add_circle`; `NoAttributes<FillBuilder>` → the trait's default `add_circle`;
+/// `BuilderWithAttributes` → the defaults
+fn feed_trait<B: PathBuilder>(b: &mut B, prog: &[ProgItem]) {
+    for it in prog {
+        let a = &it.attrs[0][..];
+        match &it.item {
+            Item::Circle { c, r, w } => PathBuilder::add_circle(b, *c, *r, *w, a),
+            Item::Rect { b: bx, w } => PathBuilder::add_rectangle(b, bx, *w, a),
+            Item::Ellipse { c, radii, rot, w } => PathBuilder::add_ellipse(b, *c, *radii, Angle::radians(*rot), *w, a),
+            Item::RRect { b: bx, radii, w } => PathBuilder::add_rounded_rectangle(b, bx, radii, *w, a),
+            Item::Polygon { pts, closed } => PathBuilder::add_polygon(b, Polygon { points: &pts[..], closed: *closed }, a),
+            Item::Sub { start, segs, close } => {
+                PathBuilder::begin(b, *start, &it.attrs[0]);
+                for (k, g) in segs.iter().enumerate() {
+                    let a = &it.attrs[k + 1][..];
+                    match g {
+                        PSeg::L(p) => PathBuilder::line_to(b, *p, a),
+                        PSeg::Q(c, p) => PathBuilder::quadratic_bezier_to(b, *c, *p, a),
+                        PSeg::C(c1, c2, p) => PathBuilder::cubic_bezier_to(b, *c1, *c2, *p, a),
+                    };
+                }
+                PathBuilder::end(b, *close);
+            }
+        }
+    }
+}
+
+/// the program through the INHERENT helper methods of `NoAttributes<B>` (what
+/// `FillTessellator::builder(..)` and `Path::builder()` return): `self.inner.add_circle(..)`
+fn feed_noattr<B: PathBuilder>(b: &mut NoAttributes<B>, prog: &[ProgItem]) {
+    for it in prog {
+        match &it.item {
+            Item::Circle { c, r, w } => b.add_circle(*c, *r, *w),
+            Item::Rect { b: bx, w } => b.add_rectangle(bx, *w),
+            Item::Ellipse { c, radii, rot, w } => b.add_ellipse(*c, *radii, Angle::radians(*rot), *w),
+            Item::RRect { b: bx, radii, w } => b.add_rounded_rectangle(bx, radii, *w),
+            Item::Polygon { pts, closed } => b.add_polygon(Polygon { points: &pts[..], closed: *closed }),
+            Item::Sub { start, segs, close } => {
+                b.begin(*start);
+                for g in segs {
+                    match g {
+                        PSeg::L(p) => b.line_to(*p),
+                        PSeg::Q(c, p) => b.quadratic_bezier_to(*c, *p),
+                        PSeg::C(c1, c2, p) => b.cubic_bezier_to(*c1, *c2, *p),
+                    };
+                }
+                b.end(*close);
+            }
+        }
+    }
+}
+
+/// the program through the inherent methods of `FillBuilder` (`builder_with_attributes`): its own
+/// `begin / line_to / .. / add_circle`; the other helpers exist only as trait methods
+fn feed_fill_builder(b: &mut lyon_tessellation::FillBuilder, prog: &[ProgItem]) {
+    for it in prog {
+        let a = &it.attrs[0][..];
+        match &it.item {
+            Item::Circle { c, r, w } => b.add_circle(*c, *r, *w, a),
+            Item::Rect { b: bx, w } => b.add_rectangle(bx, *w, a),
+            Item::Ellipse { c, radii, rot, w } => b.add_ellipse(*c, *radii, Angle::radians(*rot), *w, a),
+            Item::RRect { b: bx, radii, w } => b.add_rounded_rectangle(bx, radii, *w, a),
+            Item::Polygon { pts, closed } => b.add_polygon(Polygon { points: &pts[..], closed: *closed }, a),
+            Item::Sub { start, segs, close } => {
+                b.begin(*start, &it.attrs[0]);
+                for (k, g) in segs.iter().enumerate() {
+                    let a = &it.attrs[k + 1][..];
+                    match g {
+                        PSeg::L(p) => b.line_to(*p, a),
+                        PSeg::Q(c, p) => b.quadratic_bezier_to(*c, *p, a),
+                        PSeg::C(c1, c2, p) => b.cubic_bezier_to(*c1, *c2, *p, a),
+                    };
+                }
+                b.end(*close);
+            }
+        }
+    }
+}
+
+const FP_ENTRIES: [&str; 4] = ["builder", "attrs", "genericfb", "generic"];
+
+/// the program on the fill tessellator's own builder
+fn run_fillprog(tess: &mut FillTessellator, prog: &[ProgItem], entry: usize, nattr: usize, opts: &FillOptions, out: &mut dyn FillGeometryBuilder) -> Result<(), String> {
+    let r = match entry {
+        0 => {
+            let mut b = tess.builder(opts, out);
+            feed_noattr(&mut b, prog);
+            b.build()
+        }
+        1 => {
+            let mut b = tess.builder_with_attributes(nattr, opts, out);
+            feed_fill_builder(&mut b, prog);
+            b.build()
+        }
+        2 => {
+            let mut b = tess.builder_with_attributes(nattr, opts, out);
+            feed_trait(&mut b, prog);
+            b.build()
+        }
+        _ => {
+            let mut b = tess.builder(opts, out);
+            feed_trait(&mut b, prog);
+            b.build()
+        }
+    };
+    r.map_err(|e| format!("{:?}", e))
+}
+
+/// the same program as a `Path`
+fn prog_path(prog: &[ProgItem], nattr: usize) -> Path {
+    if nattr == 0 {
+        let mut b = Path::builder();
+        feed_noattr(&mut b, prog);
+        b.build()
+    } else {
+        let mut b = Path::builder_with_attributes(nattr);
+        feed_trait(&mut b, prog);
+        b.build()
+    }
+}
+
+enum EmitP {
+    V(Point, Vec<VerifEdgeRecord>, Vec<f32>),
+    T(u32, u32, u32),
+}
+
+/// geometry builder that keeps the complete emission sequence and the mesh
+#[derive(Default)]
+struct ProgLog {
+    ems: Vec<EmitP>,
+    verts: Vec<Point>,
+    tris: Vec<[u32; 3]>,
+}
+
+impl GeometryBuilder for ProgLog {
+    fn add_triangle(&mut self, a: VertexId, b: VertexId, c: VertexId) {
+        self.ems.push(EmitP::T(a.0, b.0, c.0));
+        self.tris.push([a.0, b.0, c.0]);
+    }
+}
+
+impl FillGeometryBuilder for ProgLog {
+    fn add_fill_vertex(&mut self, mut v: FillVertex) -> Result<VertexId, GeometryBuilderError> {
+        let pos = v.position();
+        let recs = v.verif_sibling_records();
+        let attrs = v.interpolated_attributes().to_vec();
+        self.ems.push(EmitP::V(pos, recs, attrs));
+        self.verts.push(pos);
+        Ok(VertexId(self.verts.len() as u32 - 1))
+    }
+}
+
+/// exact point-in-triangle coverage of a mesh; `None` = the point is on / too near a triangle edge
+fn covered(verts: &[Point], tris: &[[u32; 3]], q: (f64, f64)) -> Option<bool> {
+    let mut cov = false;
+    for t in tris {
+        match in_triangle(q, verts[t[0] as usize], verts[t[1] as usize], verts[t[2] as usize]) {
+            Some(true) => cov = true,
+            None => return None,
+            _ => {}
+        }
+    }
+    Some(cov)
+}
+
+fn gen_attrs(rng: &mut Rng, nattr: usize) -> Vec<f32> {
+    (0..nattr).map(|_| rng.range(-64, 64) as f32 * 0.25).collect()
+}
+
+fn gen_item(rng: &mut Rng, base: Point, lattice: bool) -> Item {
+    let co = |rng: &mut Rng, span: f64| -> f32 {
+        if lattice {
+            rng.range(-(span as i64) * 2, (span as i64) * 2) as f32 * 0.5
+        } else {
+            rng.uniform(-span, span) as f32
+        }
+    };
+    let size = |rng: &mut Rng, lo: f64, hi: f64| -> f32 {
+        if lattice {
+            rng.range((lo * 2.0).ceil() as i64, (hi * 2.0) as i64) as f32 * 0.5
+        } else {
+            rng.uniform(lo, hi) as f32
+        }
+    };
+    let w = if rng.chance(1, 2) { Winding::Positive } else { Winding::Negative };
+    let c = point(base.x + co(rng, 9.0), base.y + co(rng, 9.0));
+    match rng.below(16) {
+        0..=5 => {
+            let r = match rng.below(24) {
+                0 => 0.0,
+                1 => -size(rng, 1.0, 12.0),
+                _ => size(rng, 1.0, 14.0),
+            };
+            Item::Circle { c, r, w }
+        }
+        6 | 7 => {
+            let (sx, sy) = (size(rng, 1.0, 24.0), size(rng, 1.0, 24.0));
+            Item::Rect { b: Box2D { min: point(c.x - sx * 0.5, c.y - sy * 0.5), max: point(c.x + sx * 0.5, c.y + sy * 0.5) }, w }
+        }
+        8 | 9 => Item::Ellipse {
+            c,
+            radii: vector(size(rng, 1.0, 14.0), size(rng, 1.0, 14.0)),
+            rot: if rng.chance(1, 4) { 0.0 } else { rng.uniform(-3.0, 3.0) as f32 },
+            w,
+        },
+        10 | 11 => {
+            let (sx, sy) = (size(rng, 2.0, 24.0), size(rng, 2.0, 24.0));
+            let m = sx.min(sy) * 0.5;
+            let radii = match rng.below(5) {
+                0 => BorderRadii::new(0.0),
+                1 => BorderRadii::new(rng.uniform(1.0, 3.0) as f32 * m),
+                2 => BorderRadii { top_left: 0.0, top_right: rng.unit() as f32 * m, bottom_left: rng.unit() as f32 * m, bottom_right: 0.0 },
+                3 => BorderRadii { top_left: rng.unit() as f32 * m, top_right: rng.unit() as f32 * m, bottom_left: rng.unit() as f32 * m, bottom_right: rng.unit() as f32 * m },
+                _ => BorderRadii::new(rng.unit() as f32 * m),
+            };
+            Item::RRect { b: Box2D { min: point(c.x - sx * 0.5, c.y - sy * 0.5), max: point(c.x + sx * 0.5, c.y + sy * 0.5) }, radii, w }
+        }
+        12 => {
+            let n = rng.range(0, 6) as usize;
+            Item::Polygon { pts: (0..n).map(|_| point(c.x + co(rng, 10.0), c.y + co(rng, 10.0))).collect(), closed: rng.chance(2, 3) }
+        }
+        _ => {
+            let n = rng.range(2, 4);
+            let p = |rng: &mut Rng| point(c.x + co(rng, 10.0), c.y + co(rng, 10.0));
+            let segs = (0..n)
+                .map(|_| match rng.below(4) {
+                    0 | 1 => PSeg::L(p(rng)),
+                    2 => PSeg::Q(p(rng), p(rng)),
+                    _ => PSeg::C(p(rng), p(rng), p(rng)),
+                })
+                .collect();
+            Item::Sub { start: p(rng), segs, close: rng.chance(2, 3) }
+        }
+    }
+}
+
+fn put_item(args: &mut Out, it: &ProgItem) {
+    let wb = |w: &Winding| *w == Winding::Positive;
+    match &it.item {
+        Item::Circle { c, r, w } => {
+            args.t("circle").b(wb(w)).p(*c).f(*r);
+        }
+        Item::Rect { b, w } => {
+            args.t("rect").b(wb(w)).p(b.min).p(b.max);
+        }
+        Item::Ellipse { c, radii, rot, w } => {
+            args.t("ellipse").b(wb(w)).p(*c).v(*radii).f(*rot);
+        }
+        Item::RRect { b, radii, w } => {
+            args.t("rrect").b(wb(w)).p(b.min).p(b.max).f(radii.top_left).f(radii.top_right).f(radii.bottom_left).f(radii.bottom_right);
+        }
+        Item::Polygon { pts, closed } => {
+            args.t("polygon").b(*closed).u(pts.len() as u64);
+            for p in pts {
+                args.p(*p);
+            }
+        }
+        Item::Sub { start, segs, close } => {
+            args.t("sub").u(segs.len() as u64 + 2);
+            args.t("B").p(*start);
+            for x in &it.attrs[0] {
+                args.f(*x);
+            }
+            for (k, g) in segs.iter().enumerate() {
+                match g {
+                    PSeg::L(p) => {
+                        args.t("L").p(*p);
+                    }
+                    PSeg::Q(c, p) => {
+                        args.t("Q").p(*c).p(*p);
+                    }
+                    PSeg::C(c1, c2, p) => {
+                        args.t("C").p(*c1).p(*c2).p(*p);
+                    }
+                }
+                for x in &it.attrs[k + 1] {
+                    args.f(*x);
+                }
+            }
+            args.t("E").b(*close);
+            return;
+        }
+    }
+    for x in &it.attrs[0] {
+        args.f(*x);
+    }
+}
+
+fn fillprog_case(ctx: &mut Ctx) {
+    let thorough = ctx.thorough;
+    ctx.case("fillprog:32", |rng| {
+        let rule = if rng.chance(1, 2) { FillRule::EvenOdd } else { FillRule::NonZero };
+        let orientation = if rng.chance(1, 2) { Orientation::Vertical } else { Orientation::Horizontal };
+        let tol = *rng.pick(&[0.001f32, 0.01, 0.01, 0.1, 0.1, 0.5]);
+        let entry = rng.below(4) as usize;
+        let nattr = if entry == 1 || entry == 2 { rng.range(0, 2) as usize } else { 0 };
+        let lattice = rng.chance(1, 4);
+        let nitems = match rng.below(8) {
+            0 => 1,
+            1..=3 => 2,
+            4..=6 => 3,
+            _ => if thorough { 5 } else { 4 },
+        };
+        let base = point(rng.uniform(-10.0, 10.0) as f32, rng.uniform(-10.0, 10.0) as f32);
+        let base = if lattice { point(base.x.round(), base.y.round()) } else { base };
+        let prog: Vec<ProgItem> = (0..nitems)
+            .map(|_| {
+                let item = gen_item(rng, base, lattice);
+                let n = match &item {
+                    Item::Sub { segs, .. } => segs.len() + 1,
+                    _ => 1,
+                };
+                ProgItem { attrs: (0..n).map(|_| gen_attrs(rng, nattr)).collect(), item }
+            })
+            .collect();
+        let path = prog_path(&prog, nattr);
+        // query points: anywhere around the shapes, near every shape's centre, between centres
+        // (overlaps), level with / above control points
+        let mut ctrl_pts: Vec<Point> = Vec::new();
+        for e in path.iter() {
+            match e {
+                PathEvent::Begin { at } => ctrl_pts.push(at),
+                PathEvent::Line { to, .. } => ctrl_pts.push(to),
+                PathEvent::Quadratic { ctrl, to, .. } => {
+                    ctrl_pts.push(ctrl);
+                    ctrl_pts.push(to);
+                }
+                PathEvent::Cubic { ctrl1, ctrl2, to, .. } => {
+                    ctrl_pts.push(ctrl1);
+                    ctrl_pts.push(ctrl2);
+                    ctrl_pts.push(to);
+                }
+                _ => {}
+            }
+        }
+        let span = 24.0;
+        let mut queries: Vec<Point> = (0..14).map(|_| point(base.x + rng.uniform(-span, span) as f32, base.y + rng.uniform(-span, span) as f32)).collect();
+        for it in &prog {
+            let c = it.item.centre();
+            queries.push(point(c.x + rng.uniform(-1.0, 1.0) as f32, c.y + rng.uniform(-1.0, 1.0) as f32));
+            queries.push(point(c.x + rng.uniform(-6.0, 6.0) as f32, c.y + rng.uniform(-6.0, 6.0) as f32));
+            if let Some((_, p, _)) = it.item.probe() {
+                queries.push(p);
+            }
+        }
+        for i in 0..prog.len() {
+            for j in i + 1..prog.len() {
+                let (a, b) = (prog[i].item.centre(), prog[j].item.centre());
+                let t = rng.uniform(0.2, 0.8) as f32;
+                queries.push(point(a.x + (b.x - a.x) * t + 0.013, a.y + (b.y - a.y) * t + 0.029));
+            }
+        }
+        for _ in 0..4 {
+            if !ctrl_pts.is_empty() {
+                let a = *rng.pick(&ctrl_pts);
+                let b2 = *rng.pick(&ctrl_pts);
+                queries.push(point(base.x + rng.uniform(-span, span) as f32, a.y));
+                queries.push(point((a.x + b2.x) * 0.5, a.y));
+            }
+        }
+        let mut args = Out::new();
+        args.u(if rule == FillRule::EvenOdd { 0 } else { 1 });
+        args.u(if orientation == Orientation::Vertical { 0 } else { 1 });
+        args.f(tol).t(FP_ENTRIES[entry]).u(nattr as u64).u(prog.len() as u64);
+        for it in &prog {
+            put_item(&mut args, it);
+        }
+        args.u(queries.len() as u64);
+        for q in &queries {
+            args.p(*q);
+        }
+        let kinds: Vec<&str> = prog.iter().map(|it| it.item.name()).collect();
+        let ncirc = kinds.iter().filter(|k| **k == "circle").count();
+        let tag = format!(
+            "fillprog {} a{} {} {} items={} circles={}{}",
+            FP_ENTRIES[entry],
+            nattr,
+            if rule == FillRule::EvenOdd { "evenodd" } else { "nonzero" },
+            if orientation == Orientation::Vertical { "vertical" } else { "horizontal" },
+            prog.len(),
+            ncirc,
+            if lattice { " lattice" } else { "" }
+        );
+        (args, tag, move || {
+            let opts = FillOptions::tolerance(tol).with_fill_rule(rule).with_sweep_orientation(orientation);
+            let mut o = Out::new();
+            let mut orc = Oracle::new();
+            let mut tess = FillTessellator::new();
+            let mut log = ProgLog::default();
+            let res = vh::guarded(|| run_fillprog(&mut tess, &prog, entry, nattr, &opts, &mut log));
+            let res = match res {
+                Some(r) => r,
+                None => {
+                    // a panic of the sweep is C01's subject; the property conditions on the fill's output
+                    o.t("panic");
+                    orc.skip("fill-panicked");
+                    return CaseOut { imp: o, orcl: orc.verdict };
+                }
+            };
+            match &res {
+                Ok(()) => {
+                    o.t("ok");
+                }
+                Err(e) => {
+                    o.t("err").t(&e.replace(' ', "_"));
+                }
+            }
+            for e in &log.ems {
+                match e {
+                    EmitP::V(p, recs, at) => {
+                        o.t("v").p(*p).u(recs.len() as u64);
+                        for r in recs {
+                            o.t(if r.is_edge { "e" } else { "p" }).p(r.position);
+                            if r.is_edge {
+                                o.p(r.to);
+                            }
+                            o.f(r.range.start).f(r.range.end).i(r.winding as i64).u(r.from_id.0 as u64).u(r.to_id.0 as u64);
+                        }
+                        if nattr > 0 {
+                            o.t("a");
+                            for x in at {
+                                o.f(*x);
+                            }
+                        }
+                    }
+                    EmitP::T(a, b, c) => {
+                        o.t("t").u(*a as u64).u(*b as u64).u(*c as u64);
+                    }
+                }
+            }
+            o.t("hit");
+            let hits: Vec<(i32, bool)> = queries
+                .iter()
+                .map(|q| (path_winding_number_at_position(q, path.iter(), tol), hit_test_path(q, path.iter(), rule, tol)))
+                .collect();
+            for (w, h) in &hits {
+                o.i(*w as i64).b(*h);
+            }
+            // ---- oracle
+            // reference outline: the `Path`'s events finely flattened.  The fill's own outline differs
+            // from it by the flattening tolerance and, for `FillBuilder::add_circle`, by the radial
+            // difference between its 8-quadratic circle and the 4-cubic circle of the `Path`
+            // (at most 0.32 % of the radius).
+            let edges = flatten_ref(&path, tol);
+            let scale = ctrl_pts.iter().fold(1.0f32, |m, p| m.max(p.x.abs()).max(p.y.abs())) as f64;
+            let rmax = prog
+                .iter()
+                .map(|it| match it.item {
+                    Item::Circle { r, .. } => r.abs(),
+                    _ => 0.0,
+                })
+                .fold(0.0f32, f32::max) as f64;
+            let margin = 2.0 * tol as f64 + 0.005 * rmax + 1e-4 * scale + 1e-3;
+            // the other rule as well (same program, not part of the tie)
+            let other = if rule == FillRule::EvenOdd { FillRule::NonZero } else { FillRule::EvenOdd };
+            let mut log2 = ProgLog::default();
+            let res2 = vh::guarded(|| run_fillprog(&mut tess, &prog, entry, nattr, &opts.with_fill_rule(other), &mut log2));
+            let rname = |r: FillRule| if r == FillRule::EvenOdd { "even-odd" } else { "non-zero" };
+            for (q, (w, h)) in queries.iter().zip(hits.iter()) {
+                let qq = (q.x as f64, q.y as f64);
+                let rw = match ref_winding(&edges, qq, margin) {
+                    Some(rw) => rw,
+                    None => continue,
+                };
+                orc.check(*w == rw, "fillprog.hit_test/winding-number", "generic", || {
+                    format!("q=({},{}) lyon={} reference={} program {:?}", q.x, q.y, w, rw, kinds)
+                });
+                let is_in = |r: FillRule, w: i32| match r {
+                    FillRule::EvenOdd => w % 2 != 0,
+                    FillRule::NonZero => w != 0,
+                };
+                orc.check(*h == is_in(rule, rw), "fillprog.hit_test/fill-rule", "generic", || format!("q=({},{}) w={} rule={}", q.x, q.y, rw, rname(rule)));
+                if res.is_ok() {
+                    if let Some(c) = covered(&log.verts, &log.tris, qq) {
+                        orc.check(c == *h, "fillprog.fill/agrees-with-hit-test", "generic", || {
+                            format!(
+                                "{} rule={} q=({},{}) winding number {} hit_test={} but covered by the fill's triangles={} (program {:?})",
+                                FP_ENTRIES[entry], rname(rule), q.x, q.y, w, h, c, kinds
+                            )
+                        });
+                    }
+                }
+                if let Some(Ok(())) = res2 {
+                    if let Some(c) = covered(&log2.verts, &log2.tris, qq) {
+                        let h2 = hit_test_path(q, path.iter(), other, tol);
+                        orc.check(c == h2, "fillprog.fill/agrees-with-hit-test", "generic", || {
+                            format!(
+                                "{} rule={} q=({},{}) winding number {} hit_test={} but covered by the fill's triangles={} (program {:?})",
+                                FP_ENTRIES[entry], rname(other), q.x, q.y, w, h2, c, kinds
+                            )
+                        });
+                    }
+                }
+            }
+            // every helper delivers the requested direction: on the `Path` the winding number inside
+            // the lone shape is +1 / -1, and in the fill (non-zero rule) the shape cancels against an
+            // enclosing rectangle of the opposite direction and adds up with one of the same direction
+            for it in &prog {
+                let (want, p, size) = match it.item.probe() {
+                    Some(x) => x,
+                    None => continue,
+                };
+                if size < 20.0 * tol {
+                    continue;
+                }
+                let lone = [ProgItem { item: it.item.clone(), attrs: it.attrs.clone() }];
+                let lone_path = prog_path(&lone, nattr);
+                let w = path_winding_number_at_position(&p, lone_path.iter(), tol);
+                // lyon's ray-crossing count is -1 inside a `Winding::Positive` (positive shoelace sum) shape:
+                // the convention the independent reference `ref_winding` shares
+                let sign = if want == Winding::Positive { -1 } else { 1 };
+                orc.check(w == sign, "fillprog.shape/requested-winding-number", "generic", || {
+                    format!("{} requested {:?}: winding number {} at ({},{}) inside the lone shape", it.item.name(), want, w, p.x, p.y)
+                });
+                for d in [Winding::Positive, Winding::Negative] {
+                    let (x0, y0, x1, y1) = (p.x - 60.0, p.y - 61.0, p.x + 62.0, p.y + 63.0);
+                    // positive = positive shoelace sum (the order `add_rectangle` uses for `Positive`)
+                    let mut ring = vec![point(x0, y0), point(x1, y0), point(x1, y1), point(x0, y1)];
+                    if d == Winding::Negative {
+                        ring.reverse();
+                    }
+                    let frame = ProgItem {
+                        item: Item::Sub { start: ring[0], segs: ring[1..].iter().map(|q| PSeg::L(*q)).collect(), close: true },
+                        attrs: (0..4).map(|_| vec![0.0; nattr]).collect(),
+                    };
+                    let two = [frame, ProgItem { item: it.item.clone(), attrs: it.attrs.clone() }];
+                    let mut lg = ProgLog::default();
+                    let nz = FillOptions::tolerance(tol).with_fill_rule(FillRule::NonZero).with_sweep_orientation(orientation);
+                    if let Some(Ok(())) = vh::guarded(|| run_fillprog(&mut tess, &two, entry, nattr, &nz, &mut lg)) {
+                        if let Some(c) = covered(&lg.verts, &lg.tris, (p.x as f64, p.y as f64)) {
+                            orc.check(c == (d == want), "fillprog.shape/requested-direction-in-fill", "generic", || {
+                                format!(
+                                    "{} {} requested {:?} inside a {:?} rectangle, non-zero rule: point ({},{}) inside the shape covered={} (expected {})",
+                                    FP_ENTRIES[entry], it.item.name(), want, d, p.x, p.y, c, d == want
+                                )
+                            });
+                        }
+                    }
+                }
+            }
+            if res.is_err() && !orc.failed() {
+                orc.skip("tessellation-error");
+            }
+            CaseOut { imp: o, orcl: orc.verdict }
+        })
+    });
+}
+
 fn main() {
     let mut ctx = Ctx::from_args("C18");
     let n = ctx.n(1500, 100000);
@@ -447,6 +1094,11 @@ fn main() {
     let n = ctx.n(1500, 60000);
     for _ in 0..n {
         curved_case(&mut ctx);
+    }
+    // programs on the fill tessellator's own builder (ids after the older families)
+    let n = ctx.n(2000, 40000);
+    for _ in 0..n {
+        fillprog_case(&mut ctx);
     }
     ctx.finish();
 }
